@@ -89,6 +89,24 @@ pub fn check_wire(case: &NoisyCase, st: &mut Stats) -> Result<(), String> {
             hex(&reference.bytes[pos.saturating_sub(4)..(pos + 8).min(reference.bytes.len())]),
         ));
     }
+    // A': the encoder's custom-padding option changes the padding bytes only
+    let padv = (case.seeds.first().copied().unwrap_or(0xA5) as u8) | 1;
+    let ref_pad = ref_encode(&p.model, &mut Noise::new(NoiseMode::PadOnly(padv)));
+    let lib_pad = lib_encode(&p.lib, ref_pad.bytes.len() + 16, Some(padv)).map_err(|e| format!("encode with custom padding failed: {}", e))?;
+    // MAC / CRC values cover the padding, so they are compared as computed by the reference over its own bytes
+    if lib_pad != ref_pad.bytes {
+        let pos = lib_pad.iter().zip(ref_pad.bytes.iter()).position(|(a, b)| a != b).unwrap_or(lib_pad.len().min(ref_pad.bytes.len()));
+        return Err(format!(
+            "with custom padding {:#04x} library bytes differ from reference at offset {} (lib len {}, ref len {}): lib {} ref {}",
+            padv,
+            pos,
+            lib_pad.len(),
+            ref_pad.bytes.len(),
+            hex(&lib_pad[pos.saturating_sub(4)..(pos + 8).min(lib_pad.len())]),
+            hex(&ref_pad.bytes[pos.saturating_sub(4)..(pos + 8).min(ref_pad.bytes.len())])
+        ));
+    }
+    st.evaluations += 1;
     let nonempty = p.model.attrs.iter().any(|a| !matches!(a, RAttr::UseCandidate | RAttr::DontFragment));
     if nonempty {
         st.nontrivial(&(&p.model, 0u64));
